@@ -465,6 +465,7 @@ def check(pid, tier, seed):
     harness_fail = []
     builds = []
     stage_summ = []
+    digests = []
     custom = getattr(sys.modules["props"], "CUSTOM", {}).get(pid)
     stages = prop["stages"](tier) if callable(prop["stages"]) else prop["stages"]
     build_many(sorted({s["cfg"] for s in stages}))
@@ -511,8 +512,44 @@ def check(pid, tier, seed):
         post = st.get("post")
         if post:
             post(st, res, violations, known, known_hit, pid, seed, tags, classes)
+        if prop.get("cross_digest"):
+            dg = {}
+            for ev in res.events:
+                m = re.search(r"digest=([0-9a-f]+)", ev.tags)
+                if m and not ev.fails:
+                    dg[ev.idx] = (m.group(1), ev.keyprefix, ev.desc, ev.cls)
+            digests.append((st, dg))
         stage_summ.append({"build": st["cfg"], "monitor": st["monitor"], "cases": len(res.events), "failures": nfail_stage,
                            "wall_s": round(time.time() - ts, 1), "info": res.info})
+    if prop.get("cross_digest") and digests:
+        # same seeded case under every configuration: canonical digests must agree
+        ref_st, ref = digests[0]
+        allidx = set(ref)
+        for st2, d2 in digests[1:]:
+            allidx &= set(d2)
+        compared = 0
+        classes = set()
+        for idx in sorted(allidx):
+            vals = {}
+            regimes = set()
+            for st2, d2 in digests:
+                vals.setdefault(d2[idx][0], []).append(st2["cfg"])
+                regimes.add(d2[idx][1])
+            compared += 1
+            if len(regimes) > 1:   # non-trivial: the same input is in different regimes in at least two builds
+                classes.add(ref[idx][3] + "/" + "+".join(sorted(regimes)))
+            if len(vals) > 1:
+                groups = sorted(vals.values(), key=len)
+                key = "%s|digest-mismatch:%s/%s" % (ref[idx][1].split("|")[0], groups[0][0], groups[-1][0])
+                msg = "canonical output of case %d differs between configurations %s :: %s" % (idx, dict((k, v) for k, v in vals.items()), ref[idx][2])
+                class _E: pass
+                e = _E(); e.idx = idx; e.desc = ref[idx][2]
+                if (pid, key) in known:
+                    known_hit.setdefault(key, [known[(pid, key)], 0]); known_hit[key][1] += 1
+                elif key not in violations:
+                    violations[key] = (msg, write_replay(pid, ref_st, e, key, msg, seed), "+".join(groups[0]))
+        tags["cases_compared_across_builds"] = compared
+        tags["builds_compared"] = len(digests)
     # required regime tags
     missing = [t for t in prop.get("require_tags", {}).get(tier, []) if not any(k == t or k.startswith(t) for k in tags)]
     wall = time.time() - t0
